@@ -70,6 +70,9 @@ let () =
           | Some h -> set_file a (Some h); set_file b (Some h); take_snap a; take_snap b; obs "createshared ok")
        | _ -> failwith "createshared")
     | _ -> failwith "createshared");
+  register "setmaxret" (fun tk -> match tk with
+    | [_; name; v] -> with_file "setmaxret" name (fun h -> set_file name (Some { h with hd_maxret = zi v }); obs "setmaxret ok")
+    | _ -> failwith "setmaxret");
   register "upd" (fun tk -> match tk with
     | [_; name; id; t; v; now] -> with_file "upd" name (fun h ->
         let (h', o) = h_update flocq_fops h (zi id) (zi t) (z_of_hex v) (zi now) in
